@@ -2,6 +2,7 @@
 
 pub mod identity;
 pub mod lockstep;
+pub mod orl;
 pub mod reference;
 pub mod script;
 pub mod walk;
@@ -176,7 +177,21 @@ fn adapter_report(out: lockstep::LockOutcome) -> RunReport {
     RunReport { violations: out.violations, counters: out.counters, signature: out.signature, nontrivial: out.steps >= 2, sim_time_ns: 0, steps: out.steps, case_hashes: vec![out.signature] }
 }
 
+fn orl_report(out: orl::OrlOutcome) -> RunReport {
+    RunReport { violations: out.violations, counters: out.counters, signature: out.signature, nontrivial: out.steps >= 3, sim_time_ns: 0, steps: out.steps, case_hashes: vec![out.signature] }
+}
+
 pub fn run_case(focus: &str, seed: u64) -> (RunReport, Value) {
+    if focus == "C16" {
+        let mut sc = orl::gen_orl(seed);
+        let out = orl::run_orl(&sc);
+        if !out.violations.is_empty() {
+            sc.picks = Some(out.taken.clone());
+        }
+        let mut rep = orl_report(out);
+        rep.counters.inc(&format!("net_{}{}", sc.net, if sc.lossy { "_lossy" } else { "" }));
+        return (rep, serde_json::to_value(&sc).unwrap());
+    }
     if focus == "C15" {
         let sc = lockstep::gen_adapter(seed);
         let mut rep = adapter_report(lockstep::run_adapter(&sc));
@@ -199,6 +214,10 @@ pub fn run_case(focus: &str, seed: u64) -> (RunReport, Value) {
 }
 
 pub fn replay(focus: &str, scenario: &Value) -> Result<RunReport, String> {
+    if focus == "C16" {
+        let sc: orl::OrlScenario = serde_json::from_value(scenario.clone()).map_err(|e| e.to_string())?;
+        return Ok(orl_report(orl::run_orl(&sc)));
+    }
     if focus == "C15" {
         let sc: lockstep::AdapterScenario = serde_json::from_value(scenario.clone()).map_err(|e| e.to_string())?;
         return Ok(adapter_report(lockstep::run_adapter(&sc)));
@@ -210,6 +229,9 @@ pub fn replay(focus: &str, scenario: &Value) -> Result<RunReport, String> {
 }
 
 pub fn summary(scenario: &Value) -> Value {
+    if scenario.get("users").is_some() {
+        return serde_json::json!({"users": scenario["users"], "network": scenario["net"], "lossy": scenario["lossy"], "steps": scenario["steps"], "quiesce_steps": scenario["quiesce_steps"], "weights_deliver_drop_timeout": scenario["weights"]});
+    }
     if scenario.get("adapter").is_some() {
         return serde_json::json!({"adapter": scenario["adapter"], "actors": scenario["sys"]["tables"].as_array().map(|a| a.len()), "network": scenario["sys"]["net"], "lossy": scenario["sys"]["lossy"], "max_crashes": scenario["sys"]["max_crashes"], "positions": scenario["positions"], "steps": scenario["steps"], "script": scenario["script"]});
     }
@@ -227,6 +249,42 @@ pub fn summary(scenario: &Value) -> Value {
 }
 
 pub fn shrink_candidates(scenario: &Value) -> Vec<Value> {
+    if scenario.get("users").is_some() {
+        let Ok(sc) = serde_json::from_value::<orl::OrlScenario>(scenario.clone()) else { return vec![] };
+        let mut out = Vec::new();
+        if let Some(p) = &sc.picks {
+            for i in (0..p.len()).rev() {
+                let mut s = sc.clone();
+                let mut q = p.clone();
+                q.remove(i);
+                s.picks = Some(q);
+                out.push(s);
+            }
+        }
+        for u in 0..sc.users.len() {
+            for i in 0..sc.users[u].start.len() {
+                let mut s = sc.clone();
+                s.users[u].start.remove(i);
+                out.push(s);
+            }
+            for i in 0..sc.users[u].reactive.len() {
+                let mut s = sc.clone();
+                s.users[u].reactive.remove(i);
+                out.push(s);
+            }
+            if sc.users[u].ignore_mod != 0 {
+                let mut s = sc.clone();
+                s.users[u].ignore_mod = 0;
+                out.push(s);
+            }
+        }
+        if sc.quiesce_steps > 0 {
+            let mut s = sc.clone();
+            s.quiesce_steps = 0;
+            out.push(s);
+        }
+        return out.into_iter().map(|s| serde_json::to_value(&s).unwrap()).collect();
+    }
     if scenario.get("adapter").is_some() {
         let Ok(sc) = serde_json::from_value::<lockstep::AdapterScenario>(scenario.clone()) else { return vec![] };
         let mut out = Vec::new();
